@@ -47,8 +47,21 @@ EXPLANATION = (
     "picks the minimum of (number "
     "of pending predecessors, id, node); _order_code runs disassembly, "
     "add_pop_block_targets and compute_order in that order on the same list.  "
-    "R16.5: compute_order reads .target of every position of a block (first, "
-    "middle, last) - the D17 condition.  R16.6: every block-setup instruction "
+    "R16.5: every instruction that carries a resolved .target contributes "
+    "its edge wherever it sits in its block and whatever its jump-kind flags "
+    "are (the D17 condition, per opcode class): the classes with a known-jump "
+    "flag (per version) are the ones whose instances have .target set; a "
+    "class whose flags close the block (evaluated on R16.4's closing formula) "
+    "is always the last instruction of its block, any other (the STORE_JUMP "
+    "block setups, e.g. the synthetic SETUP_EXCEPT_311) can be first, in the "
+    "middle or - when the next instruction is a jump target - last; for each "
+    "such (class, position) some `connect_outgoing(<map>[x.target])` of "
+    "compute_order must read that position under guards that hold for the "
+    "class - tests on the instruction's class (flag helpers, isinstance, "
+    "and/or/not of them) are evaluated per class, so `if last.does_jump() and "
+    "last.target` is a violation naming the store-jump classes while a "
+    "redundant `has_known_jump()` or a `store_jump()` test on the first/middle "
+    "rule is accepted; any other guard is an analysis error.  R16.6: every block-setup instruction "
     "is recognised as pushing a block (PUSHES_BLOCK, or an isinstance test - "
     "against classes, a local tuple or a module constant - under which the "
     "instruction is appended to the block stack) and POP_BLOCK, identified by "
@@ -77,6 +90,27 @@ EXPLANATION = (
     "code constant, constants walked in co_consts order); a lookup keyed by "
     "attributes of the code object (name, first line) or get_child(name) is a "
     "violation because such keys collide for sibling lambdas/genexprs.  "
+    "R16.9 (rules/c16_shared_state.py): the passes run once per code object, "
+    "many times per process, so whatever a pass remembers while it walks one "
+    "code object must be created by that call.  For every binding of "
+    "pyc/opcodes.py, blocks/blocks.py, blocks/process_blocks.py and "
+    "typegraph/cfg_utils.py that outlives a call - parameter default "
+    "(evaluated once at def time), module-level name, class-level name - the "
+    "kind of its value is classified (immutable / mutable container or "
+    "iterator / opaque object); a mutable or opaque one must not be written "
+    "by any function of the module: mutator method (add, append, update, "
+    "pop, ...), subscript or attribute store, del, in-place operator, a "
+    "`global` re-binding; followed through local aliases (flow-insensitive), "
+    "through module-local callees that receive it (three levels) and through "
+    "an instance attribute it is stored in; a class-level container that "
+    "__init__ shadows per instance only counts when written through the "
+    "class.  Read-only shared tables, `param=None` + `if param is None: param "
+    "= set()` and immutable defaults hold.  A mutable shared container that "
+    "is returned, stored in another container or handed to a callee that is "
+    "not followed is an analysis error.  Blind spots of R16.9: memoising "
+    "decorators, function attributes, state kept in other modules or on the "
+    "objects passed in (instruction / code objects), methods of opaque "
+    "objects whose name is not a container mutator.  "
     "Blind spots of R16.20/21: other assumptions of the async-for surgery "
     "(that the merged block *starts* at the handler, that the positionally "
     "next block is the right successor) are not checked; identity- or "
@@ -97,6 +131,12 @@ ASSUMPTIONS = [
     "side-effect free and are treated as independent truth values; a name "
     "called as `f(..)` that is defined exactly once at module level and never "
     "re-bound there denotes that def (helper inlining)",
+    "R16.5: an instruction has .target set only if its class has a known-jump "
+    "flag (R16.3 decides that _add_jump_targets and _add_exception_block assign "
+    "it exactly so; _remove_jmp_to_get_anext_and_merge only re-points an "
+    "existing target); R16.9: a name called as `f(..)` / `self.f(..)` denotes "
+    "the module's def of that name; containers are recognised by literal, "
+    "comprehension or constructor name (set, dict, list, defaultdict, deque, ...)",
     "R16.20: the host interpreter is CPython 3.12 and its compiler puts "
     "END_ASYNC_FOR at the handler of every GET_ANEXT range (checked on five "
     "async-for shapes each run); R16.21: pycnite.bytecode.dis_all appends one "
@@ -1361,7 +1401,7 @@ def _phases(mod, fn, depth=2):
       if callee is None or callee in seen:
         continue
       try:
-        pairs = U._bind(callee, call, False)  # pylint: disable=protected-access
+        pairs = U._bind(callee, call, False, lenient=True)  # pylint: disable=protected-access
       except U.NotInlinable:
         continue
       seed = {p for p, v in pairs if _is_stream(v, names)}
